@@ -120,6 +120,30 @@ impl Monitor for C08 {
             };
             ctx.check(&Case::new(ev, "depth1", &s, if via_ph { Val::C(a.0, a.1) } else { z0 }), &|c, st| self.judge(c, st));
         }
+        // extreme magnitudes: the modulus must not overflow or underflow on the way (hypot), and the
+        // component formulas of + - * hold for any finite operands
+        let mags: [f64; 13] = [1e-300, 1e-170, 1e-160, 1e-154, 1e-100, 1.0, 1e100, 1e153, 1e155, 1e160, 1e200, 1e300, 1.7e308];
+        for ma in mags {
+            for mb in mags {
+                for (sa, sb) in [(1.0, 1.0), (-1.0, 1.0), (1.0, -1.0)] {
+                    if !ctx.mine() {
+                        continue;
+                    }
+                    let (a, b): (f64, f64) = (3.0 * ma * sa, 4.0 * mb * sb);
+                    if !(a.is_finite() && b.is_finite()) {
+                        continue;
+                    }
+                    for form in ["abs(@)", "abs(@)+0", "@+@", "@-@", "-@", "abs(@*1)"] {
+                        ctx.check(&Case::new(ev, "extreme", form, Val::C(a, b)), &|c, st| self.judge(c, st));
+                    }
+                    if let (Some(x), Some(y)) = (f64_expr(a), f64_expr(b)) {
+                        if x.len() + y.len() < 700 {
+                            ctx.check(&Case::new(ev, "extreme", &format!("abs({}+{}i)", x, y.trim_start_matches("(-").trim_end_matches(')')), z0), &|c, st| self.judge(c, st));
+                        }
+                    }
+                }
+            }
+        }
         // depth-2 over the exact operations (+ - * unary minus): component formulas exactly
         let leaf = |rng: &mut Rng| -> Ast {
             match rng.below(4) {
